@@ -33,7 +33,7 @@ def wordsAt (b : Bytes) (off n : Nat) : List Nat := (List.range n).map fun i => 
 -- clamped to the directory `Size`.  Also returns where the section starts in the image buffer.
 def ofView (v : Pe.View) : Out (Resources × Nat) :=
   match v.dataDir 2 with
-  | none => .err .bounds
+  | none => .err .null
   | some (va, size) =>
     match v.slice va 0 4 with
     | .ok ref =>
